@@ -30,6 +30,10 @@ def run(ctx, crate):
     D.rule_line_kinds(ctx, crate)
     D.rule_shift_full_frame(ctx, crate)
     D.rule_counted_rows_adjacent(ctx, crate)
+    # the rows committed to the erase count are exactly the rows painted: a bar line that did not fit (and was not painted)
+    # must not be counted, or the next erase reaches into the text above the region
+    D.rule_height_guard(ctx, crate)
+    D.rule_painted_line_terminated(ctx, crate)
     # a finished bar updated under an exhausted limiter stores rows that were never painted; dropping it then makes the
     # next println erase that many log lines (seed C03c)
     D.rule_finished_draws_forced(ctx, crate)
